@@ -32,7 +32,7 @@ def line_coverage(functions, lines_hit, focus=None):
     modules), against the executable lines of the function's code object.  Unreached lines are listed for the functions in
     the harness' FOCUS list (all entered functions when there is none, capped)."""
     import pathlib
-    src_dir = pathlib.Path("/repo/cryocat")
+    src_dir = pathlib.Path(REPO) / "cryocat"
     by_mod = {}
     for f in functions:
         m, q = f.split(":", 1)
